@@ -311,6 +311,22 @@ add('C02','word-includes-at-sign',IC,"(c < 'A' || c > 'Z')","(c < '@' || c > 'Z'
 add('C14','port-excludes-nine',MA,"		if b < '0' || b > '9' {","		if b < '0' || b >= '9' {",'violation:C14.R7b')
 add('C02','benign-word-as-switch',IC,"		if (c < '0' || c > '9') && (c < 'a' || c > 'z') && (c < 'A' || c > 'Z') {\n			return false\n		}","		switch {\n		case '0' <= c && c <= '9', 'a' <= c && c <= 'z', 'A' <= c && c <= 'Z':\n		default:\n			return false\n		}",'silent')
 
+# ---------------- round 4
+add('C15','header-prefilter-on-comma',MA,"	_, ps, err := mime.ParseMediaType(header)\n	if err != nil {","	if strings.Contains(header, \",\") {\n		return false\n	}\n	_, ps, err := mime.ParseMediaType(header)\n	if err != nil {",'violation:C15.R3')
+add('C15','path-prefilter-on-length',MA,"	p := r.URL.Path\n	for _, ver := range v.versions {","	p := r.URL.Path\n	if len(p) < 4 {\n		return false\n	}\n	for _, ver := range v.versions {",'violation:C15.R1')
+add('C06','reader-writes-counters',TR,"func (tree *Tree[T]) Routes() map[string][]string {\n	if tree.locker != nil {\n		tree.locker.RLock()\n		defer tree.locker.RUnlock()\n	}\n","func (tree *Tree[T]) Routes() map[string][]string {\n	if tree.locker != nil {\n		tree.locker.RLock()\n		defer tree.locker.RUnlock()\n	}\n	tree.methods[\"*\"]++\n",'violation:C06.R9')
+add('C16','group-hands-recovery-to-router',GR,"	r.Use(g.ms...)\n","	r.Use(g.ms...)\n	if r.recoverFunc == nil {\n		r.recoverFunc = g.recoverFunc\n	}\n",'violation:C16.R10')
+add('C18','hastrace-by-type-assertion',TR,"	hasTrace := trace != nil\n	var t T\n	if hasTrace {\n		t = trace.(T)\n	}","	t, hasTrace := trace.(T)",'violation:C18.R9')
+add('C18','benign-hastrace-as-branch',TR,"	hasTrace := trace != nil\n	var t T\n	if hasTrace {\n		t = trace.(T)\n	}","	var hasTrace bool\n	var t T\n	if trace != nil {\n		hasTrace = true\n		t = trace.(T)\n	}",'silent')
+add('C14','hosts-rejects-underscore',MA,"	ctx.Path = strings.ToLower(h)\n","	if strings.Contains(h, \"_\") {\n		return false\n	}\n	ctx.Path = strings.ToLower(h)\n",'violation:C14.R10')
+add('C14','hosts-add-trims-port',MA,"		err := hs.tree.Add(strings.ToLower(d), hs.emptyHandlerFunc, nil, http.MethodGet)","		err := hs.tree.Add(strings.ToLower(strings.TrimSuffix(d, \":80\")), hs.emptyHandlerFunc, nil, http.MethodGet)",'violation:C14.R1b')
+add('C05','trimspace-on-names',SG,"		seg.Name = val[start+1 : end]\n","		seg.Name = strings.TrimSpace(val[start+1 : end])\n",'violation:C05.R12')
+add('C17','ambiguity-search-skipped-when-empty',TR,"	if err := tree.checkAmbiguous(pattern); err != nil {\n		return err\n	}","	if len(tree.node.children) > 0 {\n		if err := tree.checkAmbiguous(pattern); err != nil {\n			return err\n		}\n	}",'violation:C17.R9')
+add('C03','clean-shortcut-by-find',TR,"	tree.node.clean(prefix)\n","	if n := tree.Find(prefix); n != nil && n.parent != nil {\n		n.parent.children = removeNodes(n.parent.children, n.segment.Value)\n		n.parent.buildIndexes()\n	} else {\n		tree.node.clean(prefix)\n	}\n",'violation:C03.R8')
+add('C11','empty-method-served',TR,"exists && method != methodNotAllowed {","exists {",'violation:C11.R10')
+add('C11','first-header-line-only',OP,"strings.Join(r.Header.Values(header.AccessControlRequestHeaders), \",\")","r.Header.Get(header.AccessControlRequestHeaders)",'violation:C11.R11')
+add('C10','strict-url-of-interior-node',TR,"	if n == nil || n.size() == 0 {","	if n == nil {",'violation:C10.R3b')
+
 base=os.path.dirname(os.path.abspath(__file__))
 for pid,entries in C.items():
     os.makedirs(os.path.join(base,pid),exist_ok=True)
